@@ -70,6 +70,9 @@ def main():
             ttl_expr, cap = (m3.group(1) if m3 else None), m2.group(2)
     put("ssSaltTtl", arith(ttl_expr), 61)
     put("ssSaltCapacity", int(cap) if cap else None, 102400)
+    ctpl = src("octo-squirrel-client/src/client/template.rs")
+    m = re.search(r"client_server_cache\s*=\s*LruCache::with_expiry_duration_and_capacity\(\s*\w+\s*,\s*(\d+)\s*\)", ctpl)
+    put("clientUdpBindings", int(m.group(1)) if m else None, 64)
     aid = src("octo-squirrel/src/protocol/vmess/aead/auth_id.rs")
     m = re.search(r"\.abs\(\)\s*<=\s*(\d+)", aid)
     put("vmessAuthWindow", int(m.group(1)) if m else None, 120)
